@@ -15,9 +15,9 @@ func init() {
 // frames or a journal left behind); after each import: state, log, raw image, export; after a
 // failed import: nothing changed and a restart succeeds.
 func genImport(c *Ctx) error {
-	c.Stats.Rule = "target state {absent, empty, dropped, populated (journal mode), populated (WAL with un-checkpointed frames), WAL mode without a WAL file (itself created by importing a WAL-header image)} x image {valid same page size, valid other page size, WAL-header image, page counts 1/2/5/255..257, truncated (missing pages / cut mid-page), zero-length, short garbage, bad magic, random bytes}; each followed by export and, after a refused import, a restart. Non-trivial = a successful import followed by an export, or a refused import into a populated database; distinct = distinct (target, image kind, page size, count)."
+	c.Stats.Rule = "target state {absent, empty, dropped, populated (journal mode), populated (WAL with un-checkpointed frames), WAL mode without a WAL file (itself created by importing a WAL-header image), populated with a hot journal left by a writer that died (after a successful import: a transaction applied as a file, then a restart)} x image {valid same page size, valid other page size, WAL-header image, page counts 1/2/5/255..257, truncated (missing pages / cut mid-page), zero-length, short garbage, bad magic, random bytes}; each followed by export and, after a refused import, a restart. Non-trivial = a successful import followed by an export, or a refused import into a populated database; distinct = distinct (target, image kind, page size, count)."
 	r := c.Rng
-	targets := []string{"absent", "empty", "dropped", "journal", "wal", "wal-nofile"}
+	targets := []string{"absent", "empty", "dropped", "journal", "wal", "wal-nofile", "hot-journal"}
 	kinds := []string{"valid", "valid", "valid-wal", "other-ps", "trunc-pages", "trunc-mid", "empty", "short", "badmagic", "random"}
 	reps := 1
 	if c.Tier == "thorough" {
@@ -26,6 +26,9 @@ func genImport(c *Ctx) error {
 	for rep := 0; rep < reps; rep++ {
 		for _, tgt := range targets {
 			for _, kind := range kinds {
+				if tgt == "hot-journal" && kind != "valid" && kind != "valid-wal" {
+					continue // with a hot journal the file holds uncommitted pages until somebody rolls it back: only imports that replace everything are observed
+				}
 				ps := pick(r, []int{512, 1024, 4096, 8192})
 				cs := c.Begin()
 				do := func(op string) string { c.Count("op." + strings.SplitN(op, " ", 2)[0]); return cs.Do(op) }
@@ -35,13 +38,39 @@ func genImport(c *Ctx) error {
 				switch tgt {
 				case "empty":
 					do("createdb")
-				case "dropped", "journal", "wal":
+				case "dropped", "journal", "wal", "hot-journal":
 					do("createdb")
-					p.journalTx(p.randomShape(5), 0, 0)
-					p.journalTx(p.randomShape(3), 0, 0)
+					if tgt == "hot-journal" {
+						all := txShape{newN: 5, pages: map[int]bool{}, commit: true}
+						for pg := 1; pg <= 5; pg++ {
+							all.pages[pg] = true
+						}
+						p.journalTx(all, 0, 0)
+						p.journalTx(txShape{newN: 5, pages: map[int]bool{1: true, 4: true}, commit: true}, 0, 0)
+					} else {
+						p.journalTx(p.randomShape(5), 0, 0)
+						p.journalTx(p.randomShape(3), 0, 0)
+					}
 					if tgt == "dropped" {
 						do("drop")
 						p.dropped()
+					}
+					if tgt == "hot-journal" {
+						// a writer dies inside a transaction: journal synced, pages written, nothing finalised;
+						// its locks go away with the process
+						hot := *p
+						hot.journalMode = "PERSIST"
+						hot.do = func(op string) string {
+							if op == "jrm" || op == "jtr" || op == "jw 0 z28" || strings.HasPrefix(op, "dbt ") || strings.HasPrefix(op, "unlock") ||
+								(strings.HasPrefix(op, "rlock") && strings.HasSuffix(op, " SHARED") && strings.Contains(op, " 1 ") && false) {
+								return "skipped"
+							}
+							return do(op)
+						}
+						hot.journalTx(txShape{newN: len(p.img), pages: map[int]bool{1: true, 2: true, 3: true}, commit: true}, 0, 0)
+						do("unlock 1 PENDING,RESERVED")
+						do("unlock 1 SHARED")
+						p.journalFile = true
 					}
 					if tgt == "wal" {
 						p.wal = true
@@ -64,7 +93,12 @@ func genImport(c *Ctx) error {
 					}
 					adopt(p, v0, ps)
 				}
-				observeQuiet(cs, p)
+				if tgt == "hot-journal" {
+					cs.Do("state")
+					cs.Do("ltx")
+				} else {
+					observeQuiet(cs, p)
+				}
 				// build the image to import
 				ips := ps
 				if kind == "other-ps" {
@@ -73,6 +107,9 @@ func genImport(c *Ctx) error {
 					}
 				}
 				n := pick(r, []int{1, 2, 5, 5, 255, 256, 257})
+				if tgt == "hot-journal" {
+					n = 5 // the pages the dead writer journalled exist in the imported image too
+				}
 				if ips >= 4096 && n > 5 {
 					n = 5
 				}
@@ -130,6 +167,31 @@ func genImport(c *Ctx) error {
 				} else if len(p.img) > 0 && !strings.Contains(ex, "img="+p.refImageDigest()) {
 					c.Fail(fmt.Sprintf("import(%s into %s) = %s: export %q is not the image %q", kind, tgt, res, ex, p.refImageDigest()))
 				}
+				if ok && tgt == "hot-journal" && len(v.img) > 0 {
+					// a transaction that reaches the node as a file (forwarded / replicated), then a restart:
+					// nothing of the dead writer's journal may come back
+					var t, ck uint64
+					fmt.Sscanf(posOf(st), "%d:%x", &t, &ck)
+					w := v.clone()
+					w.img, w.tok = append([][]byte{}, p.img...), append([]string{}, p.tok...)
+					w.txid, w.chk = t, ck
+					spec := w.commit(len(w.img), map[int]bool{}) // page 1 only: none of the pages the dead writer journalled besides it
+					if out := do("txapply " + spec); out != "ok" {
+						c.Fail(fmt.Sprintf("import(%s into %s): a transaction file on top of the import was not applied: %s", kind, tgt, out))
+					}
+					p.img, p.tok = append([][]byte{}, w.img...), append([]string{}, w.tok...)
+					cs.Do(p.refLine())
+					do("state")
+					do("raw")
+					if out := do("reopen"); out != "ok" {
+						c.Fail(fmt.Sprintf("import(%s into %s): restart fails after an import over a hot journal and one more transaction: %s", kind, tgt, out))
+					}
+					p.restarted()
+					cs.Do(p.refLine())
+					do("state")
+					do("raw")
+					do("ltx")
+				}
 				if !ok {
 					if out := do("reopen"); out != "ok" {
 						c.Fail(fmt.Sprintf("import(%s into %s): restart fails after a refused import: %s", kind, tgt, out))
@@ -153,7 +215,7 @@ func genImport(c *Ctx) error {
 					}
 				}
 				cs.End()
-				if ok || tgt == "journal" || tgt == "wal" || tgt == "wal-nofile" {
+				if ok || tgt == "journal" || tgt == "wal" || tgt == "wal-nofile" || tgt == "hot-journal" {
 					c.Nontrivial(fmt.Sprintf("%s|%s|%d|%d|%d", tgt, kind, ps, ips, n))
 				}
 			}
